@@ -49,7 +49,7 @@ CHECKS.update({
    note=SYSNOTE,
    tech="TLA+ contract monitor + TLC trace validation of real executions under a deterministic scheduler"),
  "C06": dict(engine="tlc+h_sys", cat=MC, ref="4 C06",
-   text="Quill.tla checked exhaustively for small configurations (per-action checks of this property, I=>A on every exported behaviour, schedules replayed on the real code with state comparison); plus executions with flush_log calls (incl. first-time threads, dropping queues) validated by TLC against QuillContract: at return every earlier statement (own; all threads when ordering is on) is written and covered by a later sink flush; stuck flush = violation; the flush handshake under the C++ release/acquire model (flag store/load, sink writes ordered before the return) is StopRA.tla with extracted memory orders, every transition replayed on the REAL backend thread / flush_log() on a shim atomic (h_stop)",
+   text="Quill.tla checked exhaustively for small configurations (per-action checks of this property, I=>A on every exported behaviour, schedules replayed on the real code with state comparison); plus executions with flush_log calls (incl. first-time threads, dropping queues) validated by TLC against QuillContract: at return every earlier statement (own; all threads when ordering is on) is written and covered by a later sink flush; stuck flush = violation; the flush handshake under the C++ release/acquire model (flag store/load, sink writes ordered before the return) is StopRA.tla with extracted memory orders, every transition replayed on the REAL backend thread / flush_log() on a shim atomic (h_stop); the destination itself is FileSink.tla (write / flush / fsync interval / file deleted by the user / restart in a or w; constants extracted by probes), every exported behaviour replayed on the real quill::FileSink in a scratch directory (h_filesink) and judged by FileSinkContract.tla / TraceFileSink.tla",
    note=SYSNOTE,
    tech="TLA+ contract monitor + TLC trace validation of real executions under a deterministic scheduler"),
  "C08": dict(engine="tlc+h_sys", cat=MC, ref="4 C08",
@@ -108,7 +108,7 @@ CHECKS.update({
    text="TLC proves the C07 invariants (promised statements on disk in order at stop/exit; signalled thread's statements then notice; right wait "
         "status; restart works) on Life.tla for all interleavings within small bounds, with -coverage and 7 seeded model defects caught; seeded TLC "
         "behaviours are run as forked children with the real backend thread/FileSink/signals and every recorded execution is validated by TLC "
-        "against LifeContract (TraceLife.tla); the stop handshake under the C++ release/acquire model is StopRA.tla with the memory orders extracted "
+        "against LifeContract (TraceLife.tla); Life.tla carries the timestamp-ordering grace period (statements too young to be read, Age) with a seeded model defect for an exit drain that stops early; the stop handshake under the C++ release/acquire model is StopRA.tla with the memory orders extracted "
         "from the code, every transition replayed on the REAL backend thread / Backend::stop() / log calls on a shim atomic (h_stop), judged by TraceStop.tla",
    note="exhaustive only for main+1 worker x3 statements x2 starts x six signals, main+2 workers x2 statements x{SEGV,INT}, and main+2 workers x3 "
         "statements with no signals; the full bound by seeded simulation only; real code sampled (240/3000 children); a rejection must repeat in 3 "
@@ -166,6 +166,7 @@ man = {"version": 1, "setup_cmd": "cd /verif && ./setup.sh",
            {"name": "h_named", "path": "/verif/harness/h_named.cpp", "serves_properties": ["C19"], "kind_free_text": "real named-args scanner and end-to-end JSON sink runs"},
            {"name": "h_life", "path": "/verif/harness/h_life.cpp", "serves_properties": ["C07"], "kind_free_text": "forked children running the real backend thread, FileSink and signals"},
            {"name": "h_stop", "path": "/verif/harness/h_stop.cpp", "serves_properties": ["C03", "C06", "C07", "C08", "C16", "C17"], "kind_free_text": "the real backend thread (run loop, _poll, _exit), Backend::stop() and log calls of two real threads on the shim std::atomic (release/acquire model): the backend is parked at every load of its running flag, the script chooses what that load and the writer-position loads of the iteration read"},
+           {"name": "h_filesink", "path": "/verif/harness/h_filesink.cpp", "serves_properties": ["C06"], "kind_free_text": "real quill::FileSink driven by scripts in a scratch directory (write, flush_sink, unlink, virtual steady clock, restart), fsync interposed and counted, file read back after every operation"},
            {"name": "h_lock", "path": "/verif/harness/h_lock.cpp", "serves_properties": ["C17"], "kind_free_text": "real detail::Spinlock on a shim std::atomic implementing the release/acquire model (coroutine threads, one step per atomic access, happens-before race detector)"},
            {"name": "h_remove", "path": "/verif/harness/h_remove.cpp", "serves_properties": ["C17"], "kind_free_text": "real LoggerManager / LoggerBase flags and bounded queue on the shim std::atomic (release/acquire model, script-chosen load values)"},
            {"name": "h_exit", "path": "/verif/harness/h_exit.cpp", "serves_properties": ["C20"], "kind_free_text": "real ThreadContext (_valid flag) and bounded queue on a shim std::atomic implementing the release/acquire model with script-chosen load values"},
